@@ -110,6 +110,9 @@ class Runner:
         """Sequential phases after the first build: unchanged rebuild, clean."""
         sb = self.sb
         t1 = self.tree()
+        from .history import cache_duplicates
+        snap = uni.snap(sb.R)
+        dups = cache_duplicates(snap.get('c')) if first.get('build') == 'done' else []
         inv = []
 
         def root(b):
@@ -126,7 +129,7 @@ class Runner:
         except Exception as e:
             cl = 'EXC ' + type(e).__name__
         t3 = self.tree()
-        return {'first': first, 'tree': t1, 'rebuild': r2, 'rebuild_inv': sorted(map(canon, inv)), 'tree2': t2,
+        return {'first': first, 'tree': t1, 'cache_duplicates': dups, 'rebuild': r2, 'rebuild_inv': sorted(map(canon, inv)), 'tree2': t2,
                 'clean': cl, 'tree3': t3, 'tmp': self.sb.tmp_listing()}
 
     def tree(self):
@@ -150,14 +153,18 @@ class Runner:
             api = RealApi(self.ctx.fb, sb, b, None, None, root=True)
             for t, i in order:
                 res['%d.%d' % (t, i)] = exec_op(api, sc['threads'][t][i], inv)
+            for j, op in enumerate(sc.get('after', [])):
+                res['after.%d' % j] = exec_op(api, op, inv)
             if sc.get('raise_after'):
                 raise UserError('root raises after the operations')
             return 'done'
         try:
             rv = self.FB.build(self.cache, BUILD, root)
-            first = {'build': rv, 'ops': res, 'inv': sorted(map(canon, inv))}
         except Exception as e:
-            first = {'build': 'EXC ' + type(e).__name__, 'ops': res, 'inv': sorted(map(canon, inv))}
+            rv = 'EXC ' + type(e).__name__
+        if sc.get('transient_queries'):
+            res = {k: v for k, v in res.items() if k.startswith('after.') or k in sc['transient_queries'].get('keep', [])}
+        first = {'build': rv, 'ops': res, 'inv': sorted(map(canon, inv))}
         return self.phases_after(sc, first)
 
     def run_concurrent(self, sc, prefix, line=False):
@@ -180,6 +187,8 @@ class Runner:
                 tids = [s.spawn(worker, t) for t in range(len(sc['threads']))]
                 s.join(tids)
                 s.active = False
+                for j, op in enumerate(sc.get('after', [])):
+                    res['after.%d' % j] = exec_op(api, op, inv)
                 if sc.get('raise_after'):
                     raise UserError('root raises after the operations')
                 return 'done'
@@ -193,6 +202,8 @@ class Runner:
                 s.active = False
         s = sched.run_schedule(body, prefix, line, libdir)
         thread_excs = sorted(type(st.exc).__name__ for st in s.threads.values() if st.exc is not None)
+        if sc.get('transient_queries'):
+            res = {k: v for k, v in res.items() if k.startswith('after.') or k in sc['transient_queries'].get('keep', [])}
         first = {'build': box.get('rv'), 'ops': res, 'inv': sorted(map(canon, inv))}
         if thread_excs:
             first['thread_exceptions'] = thread_excs
